@@ -90,7 +90,7 @@ def run(res, tier, seed):
                     res.violation("transformation process died or hung (rc=%s): %s" % (p.returncode, (err or b"").decode()[-300:]), [sample])
                     died = True
                 continue
-            events.append({"e": "Transform", "doc": d + 1, "ss": xslgen.spec_form(ss), "status": dn["status"], "msg": dn["msg"][:300], "tree": canon(dn["tree"]), "sample": c["id"]})
+            events.append({"e": "Transform", "doc": d + 1, "ss": xslgen.spec_stylesheet(ss), "status": dn["status"], "msg": dn["msg"][:300], "tree": canon(dn["tree"]), "sample": c["id"]})
     res.cov["evaluations"] = len(events)
     dpath = os.path.join(wd, "docs.ndjson")
     vlib.write_ndjson(dpath, flats)
@@ -99,9 +99,10 @@ def run(res, tier, seed):
     for rj in rejects:
         ev = events[rj["line"]]
         cdir = cases[ev["sample"]]["dir"]
-        key = rj["msg"].split(" ")[0][3:] if rj["msg"].startswith("KD:") else classify(ev)
-        if key and key in known:
-            res.known(known[key])
+        keys = rj["msg"].split(" ")[0][3:].split("+") if rj["msg"].startswith("KD:") else []
+        if keys and all(k in known for k in keys):
+            for k in keys:
+                res.known(known[k])
         else:
             res.violation("status %s %s | %s" % (ev["status"], ev["msg"][:100], rj["msg"][:300]),
                           [dict(ev, xsl=open(os.path.join(cdir, "main.xsl")).read(), xml=open(os.path.join(cdir, "in.xml")).read(), flatdoc=flats[ev["doc"] - 1])])
